@@ -451,4 +451,7 @@ def match_known(k, viol, events, cfg):
         return False
     if m.get('kind') == 'userser':
         return bool(cfg.get('userser'))
+    if m.get('kind') == 'userser_after_stale_load':
+        # consequences of the stale snapshot load (K-C09-userser-stale-snapshot) later in the same run
+        return bool(cfg.get('userser')) and 'applied_back' in ((viol.get('detail') or {}).get('after') or [])
     return False
